@@ -74,6 +74,31 @@ Definition range_to_span (source : text) (r : range) : res span :=
   do b <- position_to_index source l2 c2;
   span_new a b.                                                      (* Span::new panics on a > b *)
 
+(* ---- the code with fixes/F9.diff applied (NOT what /repo contains today) --------------------
+   after the `.take(line + 1).collect()`:
+     let line = position.line as usize;
+     if line >= 1 && newline_indices.len() == line
+         && (newline_indices[line - 1] < source.len() || position.character == 0)
+     { newline_indices.push(source.len()); }
+   (`newline_indices[line - 1]` is the last element: the vector has exactly `line >= 1` elements) *)
+Definition position_to_index_fixed (source : text) (line col : nat) : res nat :=
+  let nl0 := firstn (line + 1) (newline_indices source) in
+  let nl := if (1 <=? line) && (length nl0 =? line) && ((last nl0 0 <? length source) || (col =? 0))
+            then nl0 ++ [length source] else nl0 in
+  let '(line_end_idx, nl1) := pop_or nl (length source) in
+  let '(line_start_idx, _) := pop_or nl1 0 in
+  do seg <- slice_chk source line_start_idx line_end_idx;
+  match col_loop seg col 0 0 with
+  | inl k => Ok (line_start_idx + k)
+  | inr cols => if 0 <? cols then Ok line_end_idx else Ok line_start_idx
+  end.
+
+Definition range_to_span_fixed (source : text) (r : range) : res span :=
+  let '((l1, c1), (l2, c2)) := r in
+  do a <- position_to_index_fixed source l1 c1;
+  do b <- position_to_index_fixed source l2 c2;
+  span_new a b.
+
 (* diagnostics.rs:lint_to_code_actions — the replacement string of the TextEdit *)
 Definition new_text (s : suggestion) (sp : span) (source : text) : res text :=
   match s with
@@ -94,6 +119,11 @@ Definition lookup_span (source : text) (r : range) : res span :=
 
 Definition selected (source : text) (r : range) (lints : list span) : res (list span) :=
   do q <- lookup_span source r; Ok (filter (fun l => overlaps l q) lints).
+
+Definition lookup_span_fixed (source : text) (r : range) : res span :=
+  do sp <- range_to_span_fixed source r; Ok (with_len sp 1).
+Definition selected_fixed (source : text) (r : range) (lints : list span) : res (list span) :=
+  do q <- lookup_span_fixed source r; Ok (filter (fun l => overlaps l q) lints).
 
 (* ------------------------------------------------------------------------------------------ *)
 (*  the specification side (independent of the code above)                                      *)
@@ -137,6 +167,63 @@ Definition client_apply (t : text) (r : range) (nt : text) : option text :=
   | _, _ => None
   end.
 
+(* ---- the same specification with the line ends of LSP 3.17 ("\n", "\r\n" and "\r"): what an
+   editor really does.  `resolve` above only knows "\n" (as harper does); Proofs/PosConvProofs.v shows
+   that the two agree on texts without a lone "\r" except at the index between "\r" and "\n". *)
+Definition CR : char := 13%N.
+Definition is_cr (c : char) : bool := (c =? 13)%N.
+
+Fixpoint skip_lines_lsp (t : text) (l : nat) {struct t} : option text :=
+  match l, t with
+  | 0, _ => Some t
+  | S _, [] => None
+  | S l', c :: t' =>
+      if is_nl c then skip_lines_lsp t' l'
+      else if is_cr c then
+        match t' with
+        | d :: t'' => if is_nl d then skip_lines_lsp t'' l' else skip_lines_lsp t' l'
+        | [] => skip_lines_lsp t' l'
+        end
+      else skip_lines_lsp t' l
+  end.
+
+Fixpoint walk_col_lsp (t : text) (col : nat) {struct t} : option nat :=
+  match col with
+  | 0 => Some 0
+  | _ => match t with
+         | [] => None
+         | c :: t' => if is_nl c || is_cr c then None
+                      else if col <? len_utf16 c then None
+                      else option_map S (walk_col_lsp t' (col - len_utf16 c))
+         end
+  end.
+
+Definition resolve_lsp (t : text) (p : position) : option nat :=
+  match skip_lines_lsp t (fst p) with
+  | None => None
+  | Some rest => match walk_col_lsp rest (snd p) with
+                 | None => None
+                 | Some k => Some (length t - length rest + k)
+                 end
+  end.
+
+Definition client_apply_lsp (t : text) (r : range) (nt : text) : option text :=
+  match resolve_lsp t (fst r), resolve_lsp t (snd r) with
+  | Some a, Some b => if a <=? b then Some (firstn a t ++ nt ++ skipn b t) else None
+  | _, _ => None
+  end.
+
+(* every "\r" is immediately followed by "\n" *)
+Fixpoint no_lone_cr (t : text) : Prop :=
+  match t with
+  | [] => True
+  | c :: t' => (is_cr c = true -> exists t'', t' = NL :: t'') /\ no_lone_cr t'
+  end.
+
+(* the index between a "\r" and its "\n": it has no LSP position *)
+Definition inside_crlf (t : text) (i : nat) : Prop :=
+  exists a b, t = a ++ CR :: NL :: b /\ i = length a + 1.
+
 Definition count_nl (t : text) : nat := length (filter is_nl t).
 
 (* lexicographic order on positions *)
@@ -152,7 +239,12 @@ Definition run_span_to_range (t : text) (a b : nat) : option range :=
   match span_to_range t (mkspan a b) with Ok r => Some r | Panic _ => None end.
 Definition run_range_to_span (t : text) (l1 c1 l2 c2 : nat) : option (nat * nat) :=
   match range_to_span t ((l1, c1), (l2, c2)) with Ok s => Some (sstart s, send s) | Panic _ => None end.
+Definition run_range_to_span_fixed (t : text) (l1 c1 l2 c2 : nat) : option (nat * nat) :=
+  match range_to_span_fixed t ((l1, c1), (l2, c2)) with Ok s => Some (sstart s, send s) | Panic _ => None end.
 Definition run_resolve (t : text) (l c : nat) : option nat := resolve t (l, c).
+Definition run_resolve_lsp (t : text) (l c : nat) : option nat := resolve_lsp t (l, c).
+Definition run_client_apply_lsp (t : text) (l1 c1 l2 c2 : nat) (nt : text) : option text :=
+  client_apply_lsp t ((l1, c1), (l2, c2)) nt.
 Definition run_text_edit (kind : nat) (cs : text) (a b : nat) (t : text) : option (range * text) :=
   let s := match kind with 0 => ReplaceWith cs | 1 => InsertAfter cs | _ => Remove end in
   match text_edit s (mkspan a b) t with Ok x => Some x | Panic _ => None end.
